@@ -113,6 +113,13 @@ def r2(ctx):
     P = b.path
     wm = b.calls(r'dedupe::was_modified$')
     res = aggregates(b, 'dedupe::PartitionedFileGroup')
+    if not wm:
+        inner = [(cp, c) for cp in lib.closures_of(b.path) for c in lib.body(cp).calls(r'dedupe::was_modified$')]
+        if inner:
+            cp, c = inner[0]
+            ctx.violation(rule, P + '|same-files', c.where(), 'was_modified is only applied inside %s, i.e. to a part of the group (sub-groups / a filtered subset), '
+                          'not to the whole vector of files that is grouped and partitioned: a change of an unchecked member (e.g. the retained file) goes unnoticed' % cp)
+            return
     if not ctx.floor(rule, 'was_modified call in partition', len(wm), 1, b.where()) or not ctx.floor(rule, 'PartitionedFileGroup construction', len(res), 1, b.where()):
         return
     W = wm[0]
